@@ -31,7 +31,7 @@ LEVEL_NOTE = (
     "The printing limit of str(int) is modelled as '|i| >= 10^D gives the placeholder text' and probed at the boundary each run.")
 TECHNIQUE = ("Lean 4 proof over an executable model (case analysis on the 12-row table, generic in the Unicode parameter); "
              "regenerated constants; differential correspondence model vs month.py through Middleware.transform")
-RULE = ("corpus (D9 witnesses: 13, '\\u00b2', 5000 digits, ...; int month values 10**4300, 10**5000, -10**4300 that made str() raise "
+RULE = ("every corpus library also with instances of a user-defined subclass of Entry; corpus (D9 witnesses: 13, '\\u00b2', 5000 digits, ...; int month values 10**4300, 10**5000, -10**4300 that made str() raise "
         "before repo commit d1d53b4, through all three middlewares and all 9 pairs); exhaustive: 12 months x {int, decimal strings with 0..3 "
         "(thorough: 0..6) leading zeros, all 2^n case variants of the abbreviation and of the full name} x {3 single "
         "middlewares + 9 ordered pairs (thorough: + 27 triples)} embedded in 4 library contexts in rotation; non-month values "
